@@ -121,6 +121,78 @@ def asn_extent_rule(rep, u, fname="asn_parse", sizes=(2, 3)):
     return n
 
 
+def silent_failure_exit_rule(rep, u, lab="src/utils/bt_encode.c", releases=("bt_en_free", "free")):
+    """R-ERR (failure exit without a status): inside a decode loop, a block that releases the object it has just decoded and
+    then leaves the loop is a failure exit.  The status variable the code after the loop tests (`if (0 != error)` -> clean
+    up and return it) must be non-zero there: it was either tested non-zero on the way into the block or is assigned in
+    it.  Otherwise the function falls into its success tail with a half-built container."""
+    n = 0
+    for fn in u.function_list:
+        if fn.relfile() != lab or not fn.has_cfg:
+            continue
+        ids = core.result_locals(fn, None) if False else None
+        # status variable: the int local compared with 0 right after a loop
+        loops = fn.loops()
+        for h, body in loops.items():
+            exits = sorted({s_ for b0 in body for s_ in fn.blocks[b0].rsucc() if s_ not in body})
+            for b in exits:
+                blk = fn.blocks[b]
+                rel = [c for e in blk.elems for c, _ in walk(e) if c.get("k") == "call" and c.get("fn") in releases]
+                if not rel or not any(p_ in body for p_ in blk.preds):
+                    continue
+                outs = blk.rsucc()
+                if len(outs) != 1:
+                    continue
+                # the status variable tested after the loop
+                stat = None
+                for s_ in fn.reach_from(outs):
+                    c = fn.blocks[s_].cond
+                    if c is not None:
+                        c0 = core.strip_imp(c)
+                        if c0.get("k") == "bin" and c0["op"] in ("==", "!=") and 0 in (const_val(c0["x"]), const_val(c0["y"])):
+                            v = core.strip_casts(c0["y"] if const_val(c0["x"]) == 0 else c0["x"])
+                            if v.get("k") == "ref" and v.get("dk") == "local":
+                                stat = v
+                                break
+                if stat is None:
+                    continue
+                n += 1
+                assigned = any(y.get("k") == "bin" and y["op"] == "=" and core.is_ref(core.strip_casts(y["x"]), id=stat["id"]) and const_val(y["y"]) != 0
+                               for e in blk.elems for y, _ in walk(e))
+                # entered through a test that the status is non-zero?
+                entered_nonzero = False
+                for p_ in blk.preds:
+                    pc = fn.blocks[p_].cond
+                    if pc is None:
+                        continue
+                    atoms = [y for y, _ in walk(pc) if y.get("k") == "ref" and y.get("id") == stat["id"]]
+                    if not atoms:
+                        continue
+                    try:
+                        t0 = r_eval(pc, {id(a): 0 for a in atoms})
+                        t1 = r_eval(pc, {id(a): 5 for a in atoms})
+                    except Exception:
+                        continue
+                    pb = fn.blocks[p_]
+                    if len(pb.succ) == 2 and t0 != t1:
+                        edge_nonzero = pb.succ[0] if t1 else pb.succ[1]
+                        if edge_nonzero == b:
+                            entered_nonzero = True
+                inst = "failure-exit:%s#%d" % (fn.name, n)
+                desc = "%s: the exit at line %s that releases the decoded object leaves the loop with a non-zero '%s'" % (fn.name, rel[0].get("ln"), stat["n"])
+                if assigned or entered_nonzero:
+                    rep.proved("R-ERR", fn, inst, desc, "", rel[0].get("ln"))
+                else:
+                    rep.violated("R-ERR", fn, inst, desc, "'%s' is still 0: the code after the loop takes the success path (container built from the items so far, "
+                                 "size computed from a cursor that was not advanced)" % stat["n"], rel[0].get("ln"))
+    return n
+
+
+def r_eval(e, env):
+    from rules import r_mpt
+    return bool(r_mpt.eval_expr(e, env))
+
+
 def run(rep, tier):
     us = driver.load_units(specs())
     rep.use_units(us)
@@ -143,6 +215,7 @@ def run(rep, tier):
             ban_rule(rep, fn)
         if lab.endswith("bt_encode.c"):
             recursion_rule(rep, u)
+            rep.floor("decode-loop failure exits", silent_failure_exit_rule(rep, u), 2)
     # the number formatters are bounded only if their digit-count table is right (the abstract interpreter treats the
     # table lookup as an opaque value, so this is a separate obligation)
     from props import c14
